@@ -337,13 +337,13 @@ def lstsq_balls(chk, shapes):
                             chk.prove_eq(f"{tag}:plane_row_is_the_normal[{i}][{t}]", fkey, p.pc, la[i], nn[i])
                         if member == "circumcircle":
                             # unknown is the centre relative to the first vertex: n . x = 0
-                            chk.prove_eq(f"{tag}:plane_row_rhs[{t}]", fkey, p.pc, lb[0], 0)
+                            chk.prove_eq(f"{tag}:plane_row_rhs[{t}]", fkey, p.pc, lb[0], 0, replay=_replay_plane(member))
                         else:
                             # unknown is the absolute centre (and r with coefficient 0): n . c = n . v0
                             chk.prove_eq(f"{tag}:plane_row_radius_coefficient_is_zero[{t}]", fkey, p.pc, la[3], 0)
                             chk.prove_eq(f"{tag}:plane_row_rhs[{t}]", fkey, p.pc, lb[0],
                                          sum(nn[i] * vm(sp.Integer(0), sp.Integer(i)) for i in range(3)),
-                                         replay=_replay_scale(cls_name, member))
+                                         replay=_replay_plane(member))
                 except (paths.OutOfReach, AttributeError, IndexError, TypeError) as e:
                     chk.out_of_reach.append(f"{tag}: linear-system row not extracted ({e})")
                 if member in ("circumsphere", "circumcircle"):
@@ -411,6 +411,36 @@ def _replay_scale(cls_name, member):
 
 
 _replay_count = _replay_scale
+
+
+def _replay_plane(member):
+    """triangles in planes that do not pass through the origin: closed-form incentre / circumcentre"""
+    def replay(model):
+        from .common import real_coxeter
+        cox = real_coxeter()
+        tris = [np.array([[0.0, 0, 2], [4, 0, 2], [0, 3, 2]]),
+                np.array([[1.0, 2, 3], [4, 1, 5], [2, 5, 4]]),
+                np.array([[-3.0, 1, -7], [2, -2, -6], [1, 4, -9]])]
+        for T in tris:
+            A, B, C = T
+            a, b, c_ = np.linalg.norm(B - C), np.linalg.norm(C - A), np.linalg.norm(A - B)
+            area = 0.5 * np.linalg.norm(np.cross(B - A, C - A))
+            if member == "incircle":
+                want_c, want_r = (a * A + b * B + c_ * C) / (a + b + c_), 2 * area / (a + b + c_)
+            else:
+                # circumcentre in barycentric form
+                wa, wb, wc = a * a * (b * b + c_ * c_ - a * a), b * b * (c_ * c_ + a * a - b * b), c_ * c_ * (a * a + b * b - c_ * c_)
+                want_c, want_r = (wa * A + wb * B + wc * C) / (wa + wb + wc), a * b * c_ / (4 * area)
+            try:
+                circ = getattr(cox.shapes.Polygon(T), member)
+                got_c, got_r = np.asarray(circ.center, float), float(circ.radius)
+            except Exception as e:  # noqa: BLE001
+                return True, {"vertices": T.tolist(), "member": member, "raised": f"{type(e).__name__}: {e}"[:200]}
+            if np.abs(got_c - want_c).max() > 1e-9 * (1 + np.abs(T).max()) or abs(got_r - want_r) > 1e-9 * want_r:
+                return True, {"vertices": T.tolist(), "member": member, "center": got_c.tolist(), "radius": got_r,
+                              "closed_form_center": want_c.tolist(), "closed_form_radius": float(want_r)}
+        return False, {}
+    return replay
 
 
 def run(chk):
